@@ -313,6 +313,10 @@ def corpus():
                  "body": [("assign", "s", P.det(("add", ("mul", c(F(1, 2)), v("s")), ("mul", v("u"), v("w"))))),
                           ("simult", [("u", P.det(v("w"))), ("w", P.det(v("u")))])]},
                 [{"s": 1}, {"s": 2}], "dependent-random-init-swap"))
+    # --- equal consecutive transient values (sympy merges the Piecewise cases)
+    out.append(({"types": [], "init": [("assign", "w", P.det(c(5))), ("assign", "u", P.det(c(7))), ("assign", "t", P.det(c(7)))], "guard": ("true",),
+                 "body": [("assign", "w", P.det(v("u"))), ("assign", "u", P.det(v("t"))), ("assign", "t", P.det(c(0)))]},
+                [{"w": 1}, {"w": 1, "u": 1}], "delay-equal-transients"))
     # README-like random walk with choice
     out.append(({"types": [], "init": [("assign", "x", P.det(c(0))), ("assign", "s", P.det(c(1)))], "guard": ("true",),
                  "body": [("assign", "s", ("choice", [(c(F(1, 2)), c(1)), (c(F(1, 2)), c(-1))])),
